@@ -123,6 +123,10 @@ fn main() {
     }
     if want(&["C08"]) {
         plan.push(("iso", 1500, 150_000));
+    } else if want(&["C09"]) {
+        // the frontier invariant also has to survive interleaved transactions, actions and
+        // commits on one client (its oracle runs inside the isolation mode)
+        plan.push(("iso", 600, 60_000));
     }
     if want(&["C10"]) {
         plan.push(("init", 700, 30_000));
